@@ -14,6 +14,9 @@ CID_VALID = "D,Format,Delimited\nF,key,,,,Integer,1...99\nF,name\nC,unique key,I
 # one header row: the validation limit counts physical rows, header included, on the command line exactly as in the API
 CID_HEADER = "D,Format,Delimited\nD,Header,1\nF,key,,,,Integer,1...99\nF,name\n"
 HEADER_FILES = {"hbad%d" % k: "".join("%s,v\n" % ("x" if row == k else ("key" if row == 1 else str(row))) for row in range(1, 7)) for k in range(2, 7)}
+# an end-of-data check that data without rows fails: every file is judged on its own rows
+CID_DISTINCT = "D,Format,Delimited\nD,Header,1\nF,key,,,,Integer,1...99\nF,name\nC,two keys,DistinctCount,key >= 2\n"
+DISTINCT_FILES = {"dfull": "key,name\n1,a\n2,b\n3,c\n", "dhead": "key,name\n", "dempty": "", "done": "key,name\n5,x\n"}
 CID_BROKEN = "D,Format,Delimited\nF,key,,,,NoSuchType\n"
 FILES = {
     "acc1": "1,a\n2,b\n3,c\n",
@@ -60,7 +63,7 @@ def run_main(argv):
 
 def run(ctx):
     ctx.rule = ("CID in {valid, rejected, missing .csv/.ods/.xlsx, directory} x every ordered list of 0-3 data files over {accepted, accepted sharing keys with a "
-                "sibling, rejected by a field, rejected by IsUnique, bad row beyond a limit, missing, directory} x --until in {absent, -1, 0, 3}; a CID with one header row x files whose first broken physical row is 2..6 x --until in {absent, -1, 0..7}; unusable argument lists; "
+                "sibling, rejected by a field, rejected by IsUnique, bad row beyond a limit, missing, directory} x --until in {absent, -1, 0, 3}; a CID with one header row x files whose first broken physical row is 2..6 x --until in {absent, -1, 0..7}; a CID with a DistinctCount check x files with rows, with a header only and empty, in every order; unusable argument lists; "
                 "exit code of applications.main vs the Lean decision function fed with the per-file verdicts of the programmatic API on a fresh CID; "
                 "distinct = distinct command line; non-trivial = at least one data file")
     ctx.exhaustive = True
@@ -92,16 +95,32 @@ def run(ctx):
             paths[name] = os.path.join(tmp, name + ".csv")
             with open(paths[name], "w", newline="") as f:
                 f.write(text)
+        cids["distinct"] = os.path.join(tmp, "cid_distinct.csv")
+        with open(cids["distinct"], "w") as f:
+            f.write(CID_DISTINCT)
+        for name, text in DISTINCT_FILES.items():
+            paths[name] = os.path.join(tmp, name + ".csv")
+            with open(paths[name], "w", newline="") as f:
+                f.write(text)
         cases = []
+        # an end-of-data check x files with and without rows, in every order, with and without limit
+        for n in (1, 2, 3):
+            for combo in itertools.product(sorted(DISTINCT_FILES), repeat=n):
+                if n == 3 and len(set(combo)) < 3:
+                    continue
+                for until in (None, 0, 2):
+                    if until is not None and n == 3:
+                        continue
+                    cases.append(("distinct", combo, until))
         # header row + limit: first broken physical row k = 2..6 x --until 0..7 (single files and pairs)
         for until in [None, -1] + list(range(0, 8)):
             for k in sorted(HEADER_FILES):
                 cases.append(("header", (k,), until))
             cases.append(("header", ("hbad3", "hbad5"), until))
             cases.append(("header", ("hbad6", "hbad2"), until))
-        kinds = sorted(k for k in paths if not k.startswith("hbad"))
+        kinds = sorted(k for k in paths if not k.startswith("hbad") and k not in DISTINCT_FILES)
         for cid_name in cids:
-            if cid_name == "header":
+            if cid_name in ("header", "distinct"):
                 continue
             max_files = 3 if cid_name == "valid" else 1
             for n in range(0, max_files + 1):
